@@ -77,8 +77,9 @@ namespace nmtools::index
             at(result,i) = idx;
         }
 
-        at(result,axis1) = at(indices,meta::ct_v<-1>);
-        at(result,axis2) = at(indices,meta::ct_v<-1>) + offset;
+        // offset > 0: diagonal above the main one (columns shifted), offset < 0: below (rows shifted)
+        at(result,axis1) = at(indices,meta::ct_v<-1>) + (offset < 0 ? -offset : 0);
+        at(result,axis2) = at(indices,meta::ct_v<-1>) + (offset > 0 ?  offset : 0);
 
         return result;
     }
